@@ -322,6 +322,10 @@ pub fn property() -> Property {
                 obs.sample(|| json!({"valid_frame": hex(&frame)}));
                 Ok(())
             }),
+            SubCheck::tape("fuzz_bytes", "raw byte string (one byte per choice; entry of the libFuzzer target fz_decoder): verdicts on every prefix", |t, obs| {
+                let s = t.rest_bytes();
+                check_prefixes(&s[..s.len().min(262)], obs)
+            }),
             SubCheck::tape("strings", "random / near-valid / concatenated strings up to 262 bytes, verdict on every prefix", |t, obs| {
                 let mut s: Vec<u8> = vec![];
                 match t.weighted(&[3, 3, 2, 2]) {
